@@ -46,6 +46,18 @@ only, not in an object another require binds.  Deviation ModAtLoad (cfg
 Modules_devsnap: the object is made once and handed out again) must give TLC a
 counterexample of BindsExactly.
 
+Round 5: importers that run in a caller-supplied environment.  The command
+envreq (Session.C11Env) runs `require m`, `require m; m->m_bump()` or `require m;
+m->m_top + m->m_sees()` through Interpreter.interpret(script, name, environment)
+in an environment of the CALLER that holds the caller's own `secret` (a fresh one,
+the leaf of a chain the caller keeps; thorough: also the one kept environment).
+The spec treats such an importer like any other: the module it loads is THE
+module of the interpreter - its top level does not run again when the session (or
+another caller environment) requires it (loadonce), the counter it bumps is the
+one every importer sees (value), and the module's probes see neither the session
+nor the caller's environment (the script's value; probe).  cfg Modules_env
+(thorough: Modules_envwide, <= 3 commands, also the environment the caller keeps).
+
 Binding A: every generated module graph is written to disk as .ckl files (a
 load counter appended at the top of every file, private mutable state with
 public bump/get functions, probes that try to read an importer variable at load
@@ -160,6 +172,20 @@ def cmd_source(c, binding=None):
     if not binding or not binding.startswith("mod:"):
         raise MachineryError("mset on a name that holds no module object")
     return f"{c['n']}->{binding.split(':')[1]}_cnt = {c['v']}"
+
+
+def compare_outcome(label, got, raw, want, c, prev):
+    """Round 5: the value of a script that ran in a caller-supplied environment
+    (command envreq) IS the observation of C11's clauses there - the counter
+    after its bump (all importers share the single instance) and the sum of
+    the module's probes (module code cannot see the importer's variables): a
+    wrong int is a verdict of C11 (value / probe), where c10 says `outcome`."""
+    finds = _ORIG["compare_outcome"](label, got, raw, want, c, prev)
+    if c.get("op") != "envreq":
+        return finds
+    cat = "probe" if c["n"] == "probe" else "value"
+    return [((cat, what) if k == "outcome" and got[:2] == want[:2] == ("val", "int") else (k, what))
+            for k, what in finds]
 
 
 CNT_MEMBER = re.compile(r"^\w+->\w+_cnt$")
@@ -381,7 +407,7 @@ def run_walk_job(job, d):
 def install():
     for name, fn in (("module_source", module_source), ("require_src", require_src), ("cmd_source", cmd_source),
                      ("render_value", render_value), ("observe", observe), ("diagnostics", diagnostics),
-                     ("run_walk_job", run_walk_job), ("bind_name", bind_name), ("get_expr", get_expr),
+                     ("run_walk_job", run_walk_job), ("compare_outcome", compare_outcome), ("bind_name", bind_name), ("get_expr", get_expr),
                      ("bump_expr", bump_expr)):
         if name not in _ORIG:
             if not callable(getattr(S, name, None)):
@@ -723,10 +749,12 @@ def run(run):
     ahead.graph("Modules_quick")
     ahead.graph("Modules_pairs")
     ahead.graph("Modules_two")
+    ahead.graph("Modules_env", workers=4)           # round 5
     ahead.graph("Modules_sim", **sim_kw(1500 if quick else 10000, "Modules_sim"))
     for cfg in DEVIATIONS:
         ahead.start(cfg, workers=2, allow_violation=True, timeout=900)
     if not quick:
+        ahead.graph("Modules_envwide", workers=4)       # round 5
         ahead.graph("Modules_thorough")
         ahead.graph("Modules_sim5", **sim_kw(10000, "Modules_sim5"))
     try:
@@ -778,6 +806,10 @@ def run_checks(run, quick, rng, info, ahead, sim_kw):
     bfs("Modules_two", "Session/c11: two interpreters with different module directories (generated graph over 2 "
         "modules / the fixed second directory), interleaved programs <= 2 commands", "two_directories",
         interps=INTERPS2)
+    # round 5: importers that run in a caller-supplied environment
+    bfs("Modules_env", "Session/c11: importers run through interpret(script, name, environment) in a fresh "
+        "environment / in the leaf of a chain kept by the caller, next to importers in the session; all graphs "
+        "over 2 modules with <= 1 require per module, programs <= 2 commands", "caller_environments")
     g, fsdefs, roots = sim("Modules_sim", "Session/c11 simulation: random graphs over 3 modules, 4 commands",
                            "sim3", 1500 if quick else 10000)
     sid, fi, trie = roots[0]
@@ -787,6 +819,8 @@ def run_checks(run, quick, rng, info, ahead, sim_kw):
     runner(run, g, fsdefs, roots, rng, info, 12 if quick else 80)
     check_deviations(run, ahead, info)
     if not quick:
+        bfs("Modules_envwide", "Session/c11: caller-supplied environments incl. the one the caller keeps, programs "
+            "<= 3 commands", "caller_environments_le3")
         bfs("Modules_thorough", "Session/c11: all graphs over 3 modules, importer programs <= 2 commands",
             "graphs3_pairs")
         sim("Modules_sim5", "Session/c11 simulation: random graphs over 5 modules, 4 commands", "sim5", 10000)
@@ -835,6 +869,10 @@ def run_checks(run, quick, rng, info, ahead, sim_kw):
         "definition, m_cnt, is in every generated module); an object that shows the module's present value "
         "later on (an object that follows the module) only drifts (drift:liveobject), a value older than the "
         "binding or one that an importer assigned to ANOTHER object is a violation (value)",
+        "round 5: a script run through interpret(script, name, environment) in an environment created outside "
+        "the interpreter is an importer like any other (`from wherever it is required`): same module cache, same "
+        "instance, module scope under the interpreter's base; what its require binds in the caller's environment "
+        "is judged through the value of the script (the bumped counter, the probes), not name by name",
         "round 4: the member assignment n->m_cnt = 5 is issued only while no loaded module holds a module object "
         "of that module in its own scope (`require mb unqualified` hands mb's own object on: one shared object the "
         "statement does not speak about and the value-copying model does not follow)",
